@@ -322,14 +322,27 @@ def tensor_rows(t):
     return [[Fraction(float(v)) for v in r] for r in t.reshape(-1, t.shape[-1]).tolist()]
 
 
-def mk_user_fn(name, params, defaults, impl):
-    """a plain Python function with the NAMED signature `params` (defaults at the tail) calling impl(dict)"""
+def mk_user_fn(name, params, defaults, impl, form="def", kwonly=0):
+    """a Python callable with the NAMED signature `params` (defaults at the tail) calling impl(dict).
+    form: 'def' plain function | 'lambda' | 'method' bound method | 'object' instance with __call__;
+    kwonly = number of trailing parameters declared keyword-only (`def f(a, *, b, c)`; only without defaults)"""
     dn = [n for n, _ in defaults]
-    sig = ", ".join(p if p not in dn else f"{p}=_d_{p}" for p in params)
+    items = [p if p not in dn else f"{p}=_d_{p}" for p in params]
+    if kwonly and not defaults and 0 < kwonly < len(items):
+        items.insert(len(items) - kwonly, "*")
+    sig = ", ".join(items)
     call = ", ".join(f"{p}={p}" for p in params)
     ns = {"_impl": impl}
     for n, v in defaults:
         ns[f"_d_{n}"] = v
+    if form == "lambda":
+        exec(f"{name} = lambda {sig}: _impl(dict({call}))\n", ns)
+        return ns[name]
+    if form in ("method", "object"):
+        meth = "__call__" if form == "object" else name
+        exec(f"class _Holder:\n    def {meth}(self, {sig}):\n        return _impl(dict({call}))\n", ns)
+        h = ns["_Holder"]()
+        return h if form == "object" else getattr(h, name)
     exec(f"def {name}({sig}):\n    return _impl(dict({call}))\n", ns)
     return ns[name]
 
